@@ -123,6 +123,8 @@ def step (tree : TaskNode) (scripts : List (Nat Ã— List Reply)) (s : St) : Ev â†
         let viaDests := (dests tree).all fun d =>
           let ws := s.written.filter fun w => w.1 == d && w.2.1 == root r
           ws.all (Â·.2.2.2) && (!ws.isEmpty || s.filtered.contains (root r))
+        -- C07: a failed DLQ write never results in an ack
+        let s := if s.dlqAny.contains (root r) && !viaDlq then viol s s!"C07 record {root r} acked after an unconfirmed DLQ write" else s
         if viaDlq || viaDests then s else viol s s!"C01 unjustified ack of record {root r}") s
 
 /-- hypothesis of C01/C04/C05/C07/C08: the source connector emits distinct, non-empty positions
